@@ -250,7 +250,9 @@ def _value(M, r, want="any"):
 
 
 def _literal(r):
-    return r.choice(("at", "xx", "the", "o'clock", "week W", "Day", "T", "Y-M") if r.random() < 0.3 else ("at", "h", "on", "UTC", "GMT"))
+    # (text in [...] is verbatim whatever it holds: token letters, quotes, backslashes)
+    return r.choice(("at", "xx", "the", "o'clock", "week W", "Day", "T", "Y-M", "C:\\logs", "\\d", "a\\\\b", "\\", "(\\Y)") if r.random() < 0.3
+                    else ("at", "h", "on", "UTC", "GMT"))
 
 
 def run(M, c):
@@ -437,7 +439,8 @@ def _roundtrip(M, r, localized):
     if dflag == "wd" and tzf in ("z", ""):
         tzf = "Z"       # the open finding on `d` moves the date: with an explicit offset no zone rule re-normalises the moved value
     # (literal text is emitted and matched verbatim, whatever its Unicode normalisation form: decomposed accent, ANGSTROM/OHM SIGN, jamo)
-    glue = r.choice((" ", "T", " [at] ", " [the time is] ", ", ", " [xx] ", " [cafe\u0301] ", " [\u212b\u2126] ", " \u212b ", " [\u1112\u1161\u11ab] ")) if r.random() < 0.5 else " "
+    glue = r.choice((" ", "T", " [at] ", " [the time is] ", ", ", " [xx] ", " [cafe\u0301] ", " [\u212b\u2126] ", " \u212b ", " [\u1112\u1161\u11ab] ",
+                     " [C:\\logs] ", " [\\d] ")) if r.random() < 0.5 else " "
     fmt = dform + glue + tform + frac + ((" " + tzf) if tzf else "")
     if localized and "dd" not in fmt and r.random() < 0.35:
         # the weekday name as the very last thing in the string (names that are prefixes of one another: tr Cuma / Cumartesi)
